@@ -981,6 +981,10 @@ def run_property(prop, tier, seed):
         coded_stage(out, q, seed, lambda e: e["why"] in ("merge-panicked", "read-failed", "read-differs", "read-back-differs",
                                                          "push-panicked", "ambiguous-input-accepted", "reserve-changed-reads",
                                                          "reserve-panicked") or e.get("reserved", False))
+        # generations of merges of merged dictionary regions (demotion of formerly coded strings, unbalanced sources)
+        dictionary_random_stage(out, q, seed, lambda e: e["why"] in ("merge-panicked", "push-panicked", "read-failed", "read-back-differs",
+                                                                     "ambiguous-input-accepted", "reserve-changed-reads"),
+                                "dictionary-generations")
         # generations of merges whose sources were fed in every input form (incl. read items of coded containers):
         # the merged container must accept what its sources' statistics cover
         huffman_random_stage(out, q, seed, lambda e: e["why"] in ("merge-panicked", "push-panicked", "read-failed", "read-differs",
